@@ -595,6 +595,53 @@ def run_codec_histories(S, prop, tier):
             S.add("outcomes", "hist-" + ("raised" if "raised" in o else "returned"))
 
 
+TEXT_VALUES = ["\ufeff", "\ufeffabc", "a\ufeff", "\u00e9", "\u20acuro", "\U0001f600", "x\x00y", "\u00a0 \u2028", "\ufffe", "\u0080"]
+
+
+def run_text(S):
+    """C01 speaks of all in-range values, 7-bit ASCII being singled out 'in particular': strings of any text (a leading
+    U+FEFF, characters of 2, 3 and 4 UTF-8 bytes, NUL) at every position a string can take must come back as they went in."""
+    from fcp.parser import get_fcp_from_string
+    from fcp import serde
+    from fcp.error import Logger
+    from ..schema import STR, U, Arr, Dyn, Opt, St
+
+    shapes_ = [
+        ("st", (("s", 0, STR),)),
+        ("st", (("p", 0, U(3)), ("s", 1, STR), ("t", 2, U(5)))),
+        ("st", (("o", 0, Opt(STR)), ("t", 1, U(8)))),
+        ("st", (("a", 0, Arr(STR, 2)),)),
+        ("st", (("p", 0, U(1)), ("d", 1, Dyn(STR)))),
+        ("st", (("d", 0, Dyn(St(U(3), STR))), ("t", 1, STR))),
+    ]
+    named = [("T%d" % i, s_) for i, s_ in enumerate(shapes_)]
+    decls, _h = schema_for_structs(named)
+    text = print_schema(decls)
+    env = refcodec.Env(decls)
+    fcp = get_fcp_from_string(text, Logger({})).unwrap()
+
+    def fill(t, sv):
+        k = t[0]
+        if k == "str":
+            return sv
+        if k == "st":
+            return {f[0]: fill(f[2], sv) for f in t[1]}
+        if k == "arr":
+            return [fill(t[1], sv) for _ in range(t[2])]
+        if k == "dyn":
+            return [fill(t[1], sv), fill(t[1], "")]
+        if k == "opt":
+            return fill(t[1], sv)
+        return 1
+
+    for name, s_ in named:
+        S.count("states")
+        S.count("transitions")
+        S.add("nontrivial", ("text", s_))
+        for sv in TEXT_VALUES:
+            _c01(S, serde, fcp, env, text, name, s_, fill(s_, sv))
+
+
 def run(prop, tier):
     common.bind_repo()
     r = Run(prop, tier)
@@ -625,6 +672,9 @@ def run(prop, tier):
     r.stats.c["transitions"] += transitions
     if prop in ("C01", "C02"):
         run_vectors(r.stats, prop)
+    if prop == "C01":
+        run_text(r.stats)
+        r.bounds["text_values_beyond_ascii"] = len(TEXT_VALUES)
     if prop == "C02":
         run_codec_histories(r.stats, prop, tier)
         r.bounds["codec_call_history_depth"] = 3 if tier == "quick" else 4
